@@ -296,6 +296,70 @@ def check_end(c, pos):
     return p + 1 + (mm.end() if mm else 0)
 
 
+# ---- which object does the entitlement test name, and which object does the handler change? ----
+# tested  = the argument of CanAccessObject (for event::ExecutedCommand: the record whose "endpoint" names the zone tested)
+# changed = the roots of all non-pure member calls after the last refusal check, message-local values and the ApiListener
+#           instance (relaying) left aside.
+# Verdict (relative to the object changed):  addressed = it IS the object tested;  checkable_of / host_of = the test names
+# the checkable / the host of the object changed;  other = some other recognised variable;  none = the check reads no
+# object;  unknown = the scan cannot tell (then only the correspondence run decides - logged).
+TESTED = {}
+
+
+def changed_roots(c, start):
+    locs = message_locals(c)
+    listeners = set(m.group(1) for m in re.finditer(r'ApiListener::Ptr ?(' + IDENT + r')=ApiListener::GetInstance\(\);', c))
+    roots = []
+    sfx = c[start:]
+    for m in re.finditer(r'(' + IDENT + r')(?:<[^<>()]*>)?\(', sfx):
+        name, i = m.group(1), m.start()
+        before = sfx[:i]
+        if not (before.endswith('->') or before.endswith('.')):
+            continue
+        if PURE_CALL.match(name):
+            continue
+        k = len(before) - (1 if before.endswith('.') else 2)
+        root = _chain_root(sfx, k - 1)
+        if root is None or root in locs or root in listeners or root in ('origin', 'std'):
+            continue
+        if root not in roots:
+            roots.append(root)
+    return roots
+
+
+def tested_selection(c, pat, cond, check_end_pos, log, method):
+    if pat not in ('canaccess', 'canaccess_or_cmdep', 'execzone_childof_origin'):
+        return 'none'
+    if pat == 'execzone_childof_origin':
+        m = re.search(r'Endpoint::Ptr ?(' + IDENT + r')=Endpoint::GetByName\((' + IDENT + r')->Get\("endpoint"\)\);', c)
+        mm = re.search(r'&&!(' + IDENT + r')->GetZone\(\)->IsChildOf\(', cond)
+        if not m or not mm or m.group(1) != mm.group(1):
+            return 'unknown'
+        v = m.group(2)
+    else:
+        m = re.search(r'->CanAccessObject\((' + IDENT + r')\)', cond)
+        if not m:
+            return 'unknown'
+        v = m.group(1)
+    roots = changed_roots(c, check_end_pos)
+    if roots == [v]:
+        return 'addressed'
+    if len(roots) != 1:
+        log.append('C13: %s: entitlement test names %s, handler changes %s - identity not established' % (method, v, roots or 'nothing recognised'))
+        return 'unknown'
+    mod = roots[0]
+    e = re.escape
+    if re.search(r'(?<![\w>.])' + e(v) + r'=' + e(mod) + r'->GetCheckable\(\);', c) or re.search(r' ' + e(v) + r'\(' + e(mod) + r'->GetCheckable\(\)\);', c):
+        sel = 'checkable_of'
+    elif re.search(r'(?<![\w>.])' + e(v) + r'=' + e(mod) + r'->GetHost\(\);', c) or \
+            re.search(r'(?<![\w>.])' + e(mod) + r'=' + e(v) + r'->GetServiceByShortName\(', c):
+        sel = 'host_of'
+    else:
+        sel = 'other'
+    log.append('C13: %s: entitlement test names %s (%s) but the handler changes %s' % (method, v, sel, mod))
+    return sel
+
+
 W = r'[A-Za-z_]\w*'
 FZ = r'origin->FromZone'
 LOCAL = r'Zone::GetLocalZone\(\)'
@@ -354,6 +418,7 @@ def analyse(method, fname, body, all_src, log):
         return (True, 'none', 'none', 'all')      # everything the handler does sits inside the innermost guard
     origin_ends = []       # end positions of the endpoint / origin refusals
     flag_ends = []
+    pat_conds = []
     nested = False
     for pos, cond in returning_ifs(c):
         is_check = False
@@ -374,6 +439,7 @@ def analyse(method, fname, body, all_src, log):
                 pp = origin_cond(cond, c, epvar)
                 if pp:
                     pats.append(pp)
+                    pat_conds.append(cond)
                     is_check, kind = True, 'o'
                 elif re.fullmatch(r'!' + W + r'->GetAcceptConfig\(\)', cond):
                     flag = 'accept_config' if flag == 'none' else 'unrecognised'
@@ -399,6 +465,12 @@ def analyse(method, fname, body, all_src, log):
     if nested:
         log.append('C13: %s: a refusal check sits inside a nested block' % method)
         pat = 'unrecognised'
+    # ---- the object tested vs. the object changed
+    try:
+        TESTED[method] = tested_selection(c, pat, pat_conds[0] if len(pat_conds) == 1 else '', max(origin_ends + flag_ends) if (origin_ends or flag_ends) else 0, log, method)
+    except Exception as ex:
+        log.append('C13: tested-object analysis of %s failed: %r' % (method, ex))
+        TESTED[method] = 'unknown'
     # ---- dominance
     if not origin_ends and not flag_ends:
         dom = 'no_check'
@@ -416,6 +488,141 @@ def analyse(method, fname, body, all_src, log):
         except Exception as ex:
             log.append('C13: dominance analysis of %s failed: %r' % (method, ex))
     return (ep, pat, flag, dom)
+
+
+def top_statements(blk):
+    """split the compact text of a block body into its top-level statements (if/else chains are one statement)"""
+    out = []
+    i, n = 0, len(blk)
+    while i < n:
+        j = i
+        if re.match(r'(?:if|for|while|switch)\(', blk[i:]) or blk.startswith('else', i) or blk.startswith('try{', i) or blk.startswith('do{', i):
+            # header (...) then a block or a single statement; an if keeps its else branches
+            while True:
+                m = re.match(r'(?:else ?)?(?:if|for|while|switch|catch)\(', blk[j:])
+                if m:
+                    j = match_close(blk, j + m.end() - 1, '(', ')') + 1
+                elif blk.startswith('else', j):
+                    j += 4
+                    if j < n and blk[j] == ' ':
+                        j += 1
+                elif blk.startswith('try', j) or blk.startswith('do', j):
+                    j += 3 if blk.startswith('try', j) else 2
+                if j < n and blk[j] == '{':
+                    j = match_close(blk, j) + 1
+                else:
+                    k = j
+                    d = 0
+                    while k < n and not (blk[k] == ';' and d == 0):
+                        if blk[k] == '"':
+                            k += 1
+                            while k < n and blk[k] != '"':
+                                k += 2 if blk[k] == '\\' else 1
+                        elif blk[k] in '([{':
+                            d += 1
+                        elif blk[k] in ')]}':
+                            d -= 1
+                        k += 1
+                    j = k + 1
+                if blk.startswith('else', j) or blk.startswith('catch(', j):
+                    continue
+                break
+        elif blk[i] == '{':
+            j = match_close(blk, i) + 1
+        else:
+            d = 0
+            while j < n and not (blk[j] == ';' and d == 0):
+                if blk[j] == '"':
+                    j += 1
+                    while j < n and blk[j] != '"':
+                        j += 2 if blk[j] == '\\' else 1
+                elif blk[j] in '([{':
+                    d += 1
+                elif blk[j] in ')]}':
+                    d -= 1
+                j += 1
+            j += 1
+        if j <= i:
+            return None
+        out.append(blk[i:j])
+        i = j
+    return out
+
+
+def always_returns(blk):
+    """does every path through the block body end in a return?  (last top-level statement is a return, or an if/else chain
+    with a final else all of whose branches always return)"""
+    try:
+        st = top_statements(blk)
+    except Exception:
+        return False
+    if not st:
+        return False
+    last = st[-1]
+    if re.fullmatch(r'return(?: [^;]*|\([^;]*)?;', last) or last == 'return;':
+        return True
+    if last.startswith('{') and last.endswith('}'):
+        return always_returns(last[1:-1])
+    if last.startswith('if('):
+        # branches of the chain
+        j = 0
+        branches = []
+        has_else = False
+        while j < len(last):
+            m = re.match(r'(?:else ?)?if\(', last[j:])
+            if m:
+                j = match_close(last, j + m.end() - 1, '(', ')') + 1
+            elif last.startswith('else', j):
+                j += 4
+                if j < len(last) and last[j] == ' ':
+                    j += 1
+                has_else = True
+            else:
+                return False
+            if j < len(last) and last[j] == '{':
+                e = match_close(last, j)
+                branches.append(last[j + 1:e])
+                j = e + 1
+            else:
+                e = last.find(';', j)
+                if e < 0:
+                    return False
+                branches.append(last[j:e + 1])
+                j = e + 1
+        return has_else and all(always_returns(b) for b in branches)
+    return False
+
+
+EXQ = {}
+
+
+def exq_rules(qc, fm, flag):
+    """ExecuteCheckFromQueue (compact text qc; fm = match of the accept_commands test) ->
+    refusal: the accept_commands branch is a top-level statement, answers (ExecutedCommand 126 with "source", UNKNOWN check
+             result without) and returns, and every call that executes a command comes after it;
+    types:   which command types are executed and what a missing command / an expired deadline does"""
+    r = {}
+    execs = [m.start() for m in re.finditer(r'->(?:ExecuteRemoteCheck|ExecuteEventHandler|Execute)\(', qc)]
+    if flag == 'accept_commands' and fm and depth_at(qc, fm.start()) == 0 and qc[fm.start() - 1] in ';}':
+        e = match_close(qc, fm.end() - 1)
+        blk = qc[fm.end():e]
+        shape = (r'(?:String ?' + W + r'=[^;]*;)?if\(params->Contains\("source"\)\)\{(?:double ?' + W + r'=Utility::GetTime\(\);)?'
+                 r'SendEventExecutedCommand\(params,126,[^;]*\);\}else\{[^{}]*(?:if\(params->Contains\("service"\)\)[^;{}]*;)?[^{}]*'
+                 r'->SetState\(ServiceUnknown\);[^{}]*MakeCheckResultMessage\([^;]*\);' + W + r'->SyncSendMessage\(' + W + r',' + W + r'\);\}return;')
+        if len(execs) >= 3 and all(x > e for x in execs) and re.fullmatch(shape, blk):
+            r['refusal'] = 'reply_and_return_before_any_execution'
+    lookups = (r'if\(command_type=="check_command"\)\{if\(!CheckCommand::GetByName\(command\)\)\{.*?return;\}\}'
+               r'else if\(command_type=="event_command"\)\{if\(!EventCommand::GetByName\(command\)\)\{.*?return;\}\}'
+               r'else if\(command_type=="notification_command"\)\{if\(!NotificationCommand::GetByName\(command\)\)\{.*?return;\}\}')
+    runs = (r'if\(command_type=="check_command"\)\{try\{' + W + r'->ExecuteRemoteCheck\(' + W + r'\);\}catch.*?'
+            r'\}else if\(command_type=="event_command"\)\{try\{' + W + r'->ExecuteEventHandler\(' + W + r',true\);\}catch.*?'
+            r'\}else if\(command_type=="notification_command"&&params->Contains\("source"\)\)\{.*?' + W + r'->Execute\(.*\}$')
+    deadline = r'if\(params->Contains\("source"\)\)\{.*?double ?(' + W + r')=params->Get\("deadline"\);if\(Utility::GetTime\(\)>\1\)\{?return;'
+    ml, mr, md = re.search(lookups, qc), re.search(runs, qc), re.search(deadline, qc)
+    if ml and mr and md and md.start() < (fm.start() if fm else 0) < ml.start() < mr.start() and len(execs) == 3 \
+            and 'String command_type=params->Get("command_type");' in qc and 'String command=params->Get("command");' in qc:
+        r['types'] = 'check_event_notification_with_source'
+    return r
 
 
 def analyse_execute(c, all_src, log):
@@ -448,10 +655,19 @@ def analyse_execute(c, all_src, log):
             ok2 = True
         fm = re.search(r'if\(!(' + W + r')->GetAcceptCommands\(\)&&!origin->IsLocal\(\)\)\{', qc)
         if fm and len(re.findall(r'GetAcceptCommands', qc)) == 1:
-            # the refusal branch must end in a return before the command is looked up
+            # the refusal branch must END in an unconditional return (its last top-level statement), for every kind of
+            # command: a return that sits inside a nested if/else of the branch does not count
             s = match_close(qc, fm.end() - 1)
-            if s > 0 and qc[:s].rstrip('}').endswith('return;'):
+            blk = qc[fm.end():s] if s > 0 else ''
+            if always_returns(blk):
                 flag = 'accept_commands'
+            else:
+                log.append('C13: ExecuteCheckFromQueue: the accept_commands branch does not end in an unconditional return')
+        EXQ.clear()
+        try:
+            EXQ.update(exq_rules(qc, fm, flag))
+        except Exception as ex:
+            log.append('C13: ExecuteCheckFromQueue shape analysis failed: %r' % (ex,))
     # dominance: stage 1 precedes everything in the handler (ok_pre: nothing but the listener lookup before it, and it sits
     # at the top level); stage 2 precedes everything in ExecuteCheckFromQueue; the accept_commands refusal too?
     dom = 'unknown'
@@ -670,6 +886,8 @@ def run(rd, emit, log, enum_values, ti_default):
     shapes['ExecuteCommand forwarding branch'] = fwd_rule is not None
     shapes['RelayMessageOne / SyncRelayMessage'] = relay_rule is not None
     shapes['config::UpdateObject use of params.zone'] = uo_rule is not None
+    shapes['ExecuteCheckFromQueue accept_commands refusal'] = EXQ.get('refusal') is not None
+    shapes['ExecuteCheckFromQueue command types'] = EXQ.get('types') is not None
     for k, v in shapes.items():
         if not v:
             log.append('C13: shape not recognised (correspondence only): ' + k)
@@ -697,6 +915,13 @@ def run(rd, emit, log, enum_values, ti_default):
     body += 'Definition f_mz_update_object_zone_rule : option string := %s.\n' % opt(uo_rule)
     body += '(* which claimed originZone MessageHandler honours; None = shape not recognised (compared by the run only) *)\n'
     body += 'Definition f_mz_origin_rule : option string := %s.\n' % ('Some "%s"' % origin_rule if origin_rule else 'None')
+    body += '(* per handler: the object its entitlement test names, relative to the object it changes *)\n'
+    body += 'Definition f_mz_tested : list (string * string) := [\n'
+    body += ';\n'.join('  ("%s", "%s")' % (m, TESTED.get(m, 'none')) for m, _, _, _ in rows)
+    body += '\n].\n\n'
+    body += '(* ExecuteCheckFromQueue: the accept_commands refusal; the command types executed *)\n'
+    body += 'Definition f_mz_exq_refusal_rule : option string := %s.\n' % opt(EXQ.get('refusal'))
+    body += 'Definition f_mz_exq_types_rule : option string := %s.\n' % opt(EXQ.get('types'))
     for k, v in shapes.items():
         body += 'Definition f_mz_shape_%s : bool := %s.\n' % (re.sub(r'\W+', '_', k), 'true' if v else 'false')
     emit('Facts_c13.v', body)
